@@ -14,7 +14,7 @@ pub const ALIAS: &[&str] = &["中", "キ", "😭", "Ġ", "ě", "Ċ", "č", "ś",
 /// widths exactly on these
 pub const CLUSTERS: &[&str] = &["👍🏽", "👨\u{200d}🦰", "👩\u{200d}👩\u{200d}👧", "❤\u{fe0f}", "☺\u{fe0e}", "🇩🇪", "🇩🇪🇫", "ᄀ\u{1161}\u{11a8}", "لا", "ﻻ", "क्ष", "1\u{fe0f}\u{20e3}", "e\u{301}\u{302}", "א\u{200d}ל", "ꓡꓹ"];
 pub const LINES: &[&str] = &["\n", "\r", "\r\n", "\n\n", " \n", "\n "];
-pub const ANSI_OK: &[&str] = &["\x1b[0m", "\x1b[31m", "\x1b[1;32m", "\x1b]8;;http://x\x1b\\", "\x1b]8;;\x1b\\", "\x1b]0;t\x07", "\x1b[m"];
+pub const ANSI_OK: &[&str] = &["\x1b[0m", "\x1b[31m", "\x1b[1;32m", "\x1b]8;;http://x\x1b\\", "\x1b]8;;\x1b\\", "\x1b]0;t\x07", "\x1b[m", "\x1b]8;;file:///é/字\x1b\\"];
 pub const ANSI_BAD: &[&str] = &["\x1b", "\x1b[", "\x1b]", "\\", "\x07", "m", "@", "~", "0", ";", "[", "]", "\x1b ", "\x1b[1 q", "\x1b]0; \x07", "\x1b]8;;http://a-b\x1b\\", "\x1b\x1b"];
 pub const PREFIX: &[&str] = &[" ", "-", "+", "*", ">", "#", "/", "  ", "> ", "- "];
 pub const WS: &[&str] = &[" ", "\t", "\u{a0}", "\u{2003}", "  ", "\u{c}", "\r",
